@@ -179,6 +179,26 @@ def run(ck):
         prog.find(H + "Experimental::Connection::handleResponsePacket", 1)
     wparse, reach = lib.transitive_writes(prog, parse_roots)
     ck.require(len(reach) > 40, "call graph from ParserBase::parse too small (%d functions)" % len(reach))
+    MSG_PREFIXES = [H + "Message::", H + "Request::", H + "Response::", H + "Uri::", H + "Header::Collection::", H + "CookieJar::", H + "Cookie::"]
+    _ir = {}
+
+    def influencing_reads():
+        """fields that some function reachable from the parse roots *looks at* (an access that is not just the target of an assignment or
+        of ++ / -- / += on the same line)"""
+        if "v" not in _ir:
+            out = set()
+            for f_, _chain in reach.values():
+                self_upd = set()
+                for e in f_.events(("assign", "incdec")):
+                    tgt = (e.get("lhs") or e.get("operand") or {})
+                    if tgt.get("f"):
+                        self_upd.add((strip_tmpl(tgt["f"]), e.get("l")))
+                for e in f_.events("member"):
+                    q = strip_tmpl(e.get("f") or "")
+                    if q and (q, e.get("l")) not in self_upd:
+                        out.add(q)
+            _ir["v"] = out
+        return _ir["v"]
     applies = [x for x in reach.values() if x[0].base.endswith("Step::apply")]
     ck.require(len(applies) >= 4, "Step::apply overrides reached: %d" % len(applies))
     step_classes = set(prog.subclasses(H + "Private::Step"))
@@ -254,6 +274,11 @@ def run(ck):
                 continue
             how, ev, chain = wparse[fld][0]
             ok = fld in covered
+            if not ok and fld != lib.STREAMBUF_AREA and not fld.startswith(tuple(MSG_PREFIXES)) and fld not in influencing_reads():
+                # bookkeeping of the parser itself (a counter that is only ever incremented, say): nothing reachable from the parse
+                # roots looks at it, so what it holds cannot reach the next message
+                ck.note("C04-R2: %s is written while parsing and never read by the parser (only updated): not state of a message" % fld.replace(H, ""))
+                continue
             n += 1
             ck.ob("C04-R2", "%s: %s" % (short, fld.replace(H, "")), ok, ev.loc, ev.func,
                   ("written while parsing (%s at %s) and re-initialised by reset" % (how, ev.loc)) if ok else
